@@ -80,6 +80,8 @@ def gen_spec(rng, cls):
         objs = gen_objects(rng, keys, n_beats + start, divs, rng.choice([0.3, 0.6, 0.9]), start)
         if cls == "unsorted":
             rng.shuffle(objs)
+        if rng.random() < 0.1:
+            objs = []  # a difficulty that is set up but not stepped yet is a chart all the same
         charts.append(dict(type=ctype, desc=rng.choice(SAFE), diff=rng.choice(["Easy", "Hard", "Edit", "Challenge"]),
                            meter=rng.randint(1, 25), objects=objs))
     hdr = {k: rng.choice(SAFE) for k in ["title", "subtitle", "artist", "title_translit", "subtitle_translit",
